@@ -80,28 +80,31 @@ theorem decodeFrom_append (st : Nat) (cmd : UInt8) (a b : Bytes) :
     simp [List.append_assoc]
 
 /-- `telnetFilter` is: continue the decoder on the new bytes from the device's carried state, append what it keeps
-    to `fromBuf` and its replies to `toBuf` -/
+    to `fromBuf` and queue its replies in `toBuf` (`clipTo`: `dev->to` holds 65536 bytes, the oldest give way) -/
 theorem telnetFilter_eq (d : Dev) (new : Bytes) :
     telnetFilter d new =
       { d with tstate := (decodeFrom d.tstate d.tcmd new).st, tcmd := (decodeFrom d.tstate d.tcmd new).cmd,
                fromBuf := d.fromBuf ++ (decodeFrom d.tstate d.tcmd new).kept,
-               toBuf := d.toBuf ++ (decodeFrom d.tstate d.tcmd new).replies } := rfl
+               toBuf := clipTo (d.toBuf ++ (decodeFrom d.tstate d.tcmd new).replies) } := rfl
 
-theorem telnetFilter_nil (d : Dev) : telnetFilter d [] = d := by
-  rw [telnetFilter_eq]; simp
+/-- no bytes, no change — for an output buffer within its capacity (the model writes `clipTo (toBuf ++ [])`) -/
+theorem telnetFilter_nil (d : Dev) (hcap : d.toBuf.length ≤ 65536) : telnetFilter d [] = d := by
+  rw [telnetFilter_eq]; simp [clipTo_of_le _ hcap]
 
 /-- segmentation independence, two chunks -/
 theorem telnetFilter_append (d : Dev) (a b : Bytes) :
     telnetFilter (telnetFilter d a) b = telnetFilter d (a ++ b) := by
   rw [telnetFilter_eq d (a ++ b), decodeFrom_append, telnetFilter_eq (telnetFilter d a) b, telnetFilter_eq d a]
-  simp [List.append_assoc]
+  simp [List.append_assoc, clipTo_clipTo_append]
 
-/-- segmentation independence, any number of chunks -/
-theorem telnetFilter_chunks (d : Dev) (chunks : List Bytes) :
+/-- segmentation independence, any number of chunks (the output buffer within its capacity to begin with: needed for the
+    empty list of chunks only) -/
+theorem telnetFilter_chunks (d : Dev) (chunks : List Bytes) (hcap : d.toBuf.length ≤ 65536) :
     chunks.foldl telnetFilter d = telnetFilter d chunks.flatten := by
   induction chunks generalizing d with
-  | nil => simp [telnetFilter_nil]
-  | cons c cs ih => rw [List.foldl_cons, ih, List.flatten_cons, telnetFilter_append]
+  | nil => simp [telnetFilter_nil d hcap]
+  | cons c cs ih =>
+    rw [List.foldl_cons, ih _ (by rw [telnetFilter_eq]; exact clipTo_length_le _), List.flatten_cons, telnetFilter_append]
 
 /-! ## 2. what the decoder keeps, specified without the state machine -/
 
@@ -424,7 +427,7 @@ theorem absorb_state (d : Dev) (bs : Bytes) :
 theorem absorb_append (d : Dev) (a b : Bytes) : absorb (absorb d a) b = absorb d (a ++ b) := by
   unfold absorb
   cases h : d.isPipe
-  · simp [telnetFilter_eq, decodeFrom_append, h]
+  · simp [telnetFilter_eq, decodeFrom_append, h, clipTo_clipTo_append]
   · simp
 
 theorem readyRd_cases (c : CS) :
@@ -1287,21 +1290,30 @@ theorem handleReady_up (c : CS) (h : c.dev.conn ≠ 2) (h2 : (handleReady c).1.d
 
 /-! ## 5. the write side -/
 
-/-- what `_process_send` queues goes to the end of `toBuf` -/
-theorem stmtSend_appends (d : Dev) (a : Action) (o : Oracle) (e : ExecCtx) (fmt : Bytes) :
-    ∃ s, (stmtSend d a o e fmt).dev.toBuf = d.toBuf ++ s := by
+/-- what `_process_send` queues goes to the end of `toBuf`; `dev->to` holds 65536 bytes and the oldest queued bytes give way
+    beyond that (`clipTo`).  (A `send` that is waiting for its bytes to drain, or whose hostlist sort asserts, queues nothing:
+    `s = []`, for which the capacity hypothesis is needed.) -/
+theorem stmtSend_appends (d : Dev) (a : Action) (o : Oracle) (e : ExecCtx) (fmt : Bytes) (hcap : d.toBuf.length ≤ 65536) :
+    ∃ s, (stmtSend d a o e fmt).dev.toBuf = clipTo (d.toBuf ++ s) := by
   unfold stmtSend
   split
   · dsimp only
     split
-    · exact ⟨[], by simp⟩
+    · exact ⟨[], by simp [clipTo_of_le _ hcap]⟩
     · rename_i s _
       split
       · exact ⟨s, rfl⟩
       · exact ⟨s, rfl⟩
   · split
-    · exact ⟨[], by simp⟩
-    · exact ⟨[], by simp⟩
+    · exact ⟨[], by simp [clipTo_of_le _ hcap]⟩
+    · exact ⟨[], by simp [clipTo_of_le _ hcap]⟩
+
+/-- the statement as it read before the capacity was modelled: below the limit `_process_send` appends -/
+theorem stmtSend_appends_below (d : Dev) (a : Action) (o : Oracle) (e : ExecCtx) (fmt : Bytes) (hcap : d.toBuf.length ≤ 65536) :
+    ∃ s, (stmtSend d a o e fmt).dev.toBuf = clipTo (d.toBuf ++ s) ∧
+      ((d.toBuf ++ s).length ≤ 65536 → (stmtSend d a o e fmt).dev.toBuf = d.toBuf ++ s) := by
+  obtain ⟨s, h⟩ := stmtSend_appends d a o e fmt hcap
+  exact ⟨s, h, fun hf => by rw [h, clipTo_of_le _ hf]⟩
 
 /-- the payloads of the successful device `write`s in a system-call log, concatenated -/
 def devWritten : List Sys → Bytes
@@ -1340,60 +1352,122 @@ theorem readyWrite_conserve (c : CS) :
 /-- the option replies the daemon queues when the descriptor delivered `bs` -/
 def repliesOf (d : Dev) (bs : Bytes) : Bytes := if d.isPipe then [] else (decodeFrom d.tstate d.tcmd bs).replies
 
-theorem absorb_toBuf (d : Dev) (bs : Bytes) : (absorb d bs).toBuf = d.toBuf ++ repliesOf d bs := by
-  unfold absorb repliesOf; split <;> simp [telnetFilter_eq]
+theorem absorb_toBuf (d : Dev) (bs : Bytes) (hcap : d.toBuf.length ≤ 65536) :
+    (absorb d bs).toBuf = clipTo (d.toBuf ++ repliesOf d bs) := by
+  unfold absorb repliesOf; split <;> simp [telnetFilter_eq, clipTo_of_le _ hcap]
 
-theorem readyRd_conserve (c : CS) :
-    ∃ bs, devWritten (readyRd c).1.sys ++ (readyRd c).1.dev.toBuf =
-      devWritten c.sys ++ c.dev.toBuf ++ repliesOf c.dev bs := by
+/-- the write half in two pieces: the bytes `wr` a successful `write` took (none otherwise) are the front of `toBuf`, the rest
+    stays queued -/
+theorem readyWrite_split (c : CS) :
+    ∃ wr, devWritten (readyWrite c).1.sys = devWritten c.sys ++ wr ∧ wr ++ (readyWrite c).1.dev.toBuf = c.dev.toBuf := by
+  have hsum := readyWrite_conserve c
+  have hlog : ∃ wr, devWritten (readyWrite c).1.sys = devWritten c.sys ++ wr := by
+    unfold readyWrite
+    dsimp only
+    rcases finishConnectOne_cases c with ⟨h1, h2⟩ | ⟨h1, h2⟩
+    all_goals
+      have hsys : devWritten (finishConnectOne c).1.sys = devWritten c.sys := by
+        unfold finishConnectOne
+        split
+        · split <;> simp [devWritten_append, devWritten]
+        · simp [devWritten_append, devWritten]
+      generalize finishConnectOne c = r at *
+      obtain ⟨c1, ok⟩ := r
+      simp only at h1 h2 hsys
+      subst h1
+      repeat' split
+      all_goals first
+        | (refine ⟨[], ?_⟩; simp_all [enqueueLogin, devWritten_append, devWritten]; done)
+        | (refine ⟨c.dev.toBuf.take c.env.wcap, ?_⟩; simp_all [enqueueLogin, devWritten_append, devWritten]; done)
+  obtain ⟨wr, hwr⟩ := hlog
+  refine ⟨wr, hwr, ?_⟩
+  rw [hwr, List.append_assoc] at hsum
+  exact List.append_cancel_left hsum
+
+theorem readyRd_conserve (c : CS) (hcap : c.dev.toBuf.length ≤ 65536) :
+    ∃ bs, devWritten (readyRd c).1.sys = devWritten c.sys ∧
+      (readyRd c).1.dev.toBuf = clipTo (c.dev.toBuf ++ repliesOf c.dev bs) := by
+  have hnil : clipTo (c.dev.toBuf ++ repliesOf c.dev []) = c.dev.toBuf := by
+    have : repliesOf c.dev [] = [] := by unfold repliesOf; split <;> rfl
+    rw [this, List.append_nil, clipTo_of_le _ hcap]
   unfold readyRd
   split
   · split
-    · exact ⟨[], by cases h : c.dev.isPipe <;> simp [devWritten_append, devWritten, repliesOf, h]⟩
+    · exact ⟨[], by simp [devWritten_append, devWritten], hnil.symm⟩
     · rename_i bs _ _
-      refine ⟨bs, ?_⟩
-      show devWritten (c.sys ++ [Sys.read ↑bs.length]) ++ (absorb c.dev bs).toBuf = _
-      rw [absorb_toBuf]; simp [devWritten_append, devWritten]
-  · exact ⟨[], by cases h : c.dev.isPipe <;> simp [devWritten_append, devWritten, repliesOf, h]⟩
-  · exact ⟨[], by cases h : c.dev.isPipe <;> simp [devWritten_append, devWritten, repliesOf, h]⟩
+      refine ⟨bs, ?_, ?_⟩
+      · show devWritten (c.sys ++ [Sys.read ↑bs.length]) = _
+        simp [devWritten_append, devWritten]
+      · show (absorb c.dev bs).toBuf = _
+        rw [absorb_toBuf _ _ hcap]
+  · exact ⟨[], by simp [devWritten_append, devWritten], hnil.symm⟩
+  · exact ⟨[], by simp [devWritten_append, devWritten], hnil.symm⟩
 
-theorem readyRead_conserve (f : Nat) (c : CS) :
-    ∃ bs, devWritten (readyRead f c).1.sys ++ (readyRead f c).1.dev.toBuf =
-      devWritten c.sys ++ c.dev.toBuf ++ repliesOf c.dev bs := by
+theorem readyRead_conserve (f : Nat) (c : CS) (hcap : c.dev.toBuf.length ≤ 65536) :
+    ∃ bs, devWritten (readyRead f c).1.sys = devWritten c.sys ∧
+      (readyRead f c).1.dev.toBuf = clipTo (c.dev.toBuf ++ repliesOf c.dev bs) := by
   unfold readyRead
   split
-  · obtain ⟨bs, h⟩ := readyRd_conserve (clipRead c)
-    refine ⟨bs, ?_⟩
-    rw [h]; unfold repliesOf; simp
-  · exact ⟨[], by cases h : c.dev.isPipe <;> simp [repliesOf, h]⟩
+  · obtain ⟨bs, h1, h2⟩ := readyRd_conserve (clipRead c) (by rw [clipRead_toBuf]; exact hcap)
+    refine ⟨bs, by rw [h1]; simp, ?_⟩
+    rw [h2]; unfold repliesOf; simp
+  · refine ⟨[], rfl, ?_⟩
+    have : repliesOf c.dev [] = [] := by unfold repliesOf; split <;> rfl
+    rw [this, List.append_nil, clipTo_of_le _ hcap]
 
-/-- device write side, one call of `_handle_ready_device`, every case: the bytes written successfully so far followed
-    by `toBuf` only ever grow at the end, by the telnet option replies to what was read in this call — nothing
-    queued is lost, duplicated or reordered, however the passes fall -/
-theorem handleReady_write_conserve (c : CS) :
-    ∃ bs, devWritten (handleReady c).1.sys ++ (handleReady c).1.dev.toBuf =
-      devWritten c.sys ++ c.dev.toBuf ++ repliesOf c.dev bs := by
+/-- device write side, one call of `_handle_ready_device`, every case: a successful `write` moves a front piece `wr` of
+    `toBuf` to the descriptor, the rest `kept` stays queued, and behind it go the telnet option replies to what was read in
+    this call — `clipTo`: of more than 65536 bytes the oldest queued ones give way (`dev->to` is a cbuf in overwrite mode).
+    Nothing *written* is ever lost, duplicated or reordered; what is *queued* loses bytes only at its old end and only
+    beyond the capacity. -/
+theorem handleReady_write_conserve (c : CS) (hcap : c.dev.toBuf.length ≤ 65536) :
+    ∃ bs wr kept, wr ++ kept = c.dev.toBuf ∧ devWritten (handleReady c).1.sys = devWritten c.sys ++ wr ∧
+      (handleReady c).1.dev.toBuf = clipTo (kept ++ repliesOf c.dev bs) := by
   have hnil : repliesOf c.dev [] = [] := by unfold repliesOf; split <;> rfl
+  have same : ∀ c' : CS, devWritten c'.sys = devWritten c.sys → c'.dev.toBuf = c.dev.toBuf →
+      ∃ bs wr kept, wr ++ kept = c.dev.toBuf ∧ devWritten c'.sys = devWritten c.sys ++ wr ∧
+        c'.dev.toBuf = clipTo (kept ++ repliesOf c.dev bs) := fun c' h1 h2 =>
+    ⟨[], [], c.dev.toBuf, rfl, by simp [h1], by rw [h2, hnil, List.append_nil, clipTo_of_le _ hcap]⟩
   rw [handleReady_eq]
   split
-  · exact ⟨[], by simp [devWritten_append, devWritten, hnil]⟩
+  · exact same _ (by simp [devWritten_append, devWritten]) rfl
   split
-  · exact ⟨[], by simp [devWritten_append, devWritten, hnil]⟩
+  · exact same _ (by simp [devWritten_append, devWritten]) rfl
   split
-  · exact ⟨[], by simp [hnil]⟩
-  have hw := readyWrite_conserve c
+  · exact same _ rfl rfl
+  obtain ⟨wr, hw1, hw2⟩ := readyWrite_split c
+  have hck : (readyWrite c).1.dev.toBuf.length ≤ 65536 := by
+    rw [← hw2, List.length_append] at hcap; exact Nat.le_trans (Nat.le_add_left _ _) hcap
   split
-  · exact ⟨[], by simp [hnil, hw]⟩
+  · exact ⟨[], wr, (readyWrite c).1.dev.toBuf, hw2, hw1, by rw [hnil, List.append_nil, clipTo_of_le _ hck]⟩
   split
-  · exact ⟨[], by simp [hnil, hw]⟩
+  · exact ⟨[], wr, (readyWrite c).1.dev.toBuf, hw2, hw1, by rw [hnil, List.append_nil, clipTo_of_le _ hck]⟩
   · rename_i hio hskip
-    obtain ⟨bs, hbs⟩ := readyRead_conserve c.env.revents (readyWrite c).1
+    obtain ⟨bs, hb1, hb2⟩ := readyRead_conserve c.env.revents (readyWrite c).1 hck
     have hn := readyWrite_noskip c (by simpa using hskip)
     have hfb := readyWrite_fromBuf c
-    refine ⟨bs, ?_⟩
-    rw [hbs, hw]
+    refine ⟨bs, wr, (readyWrite c).1.dev.toBuf, hw2, by rw [hb1, hw1], ?_⟩
+    rw [hb2]
     unfold repliesOf
     rw [hn.1, hn.2.1, hfb.2.1]
+
+/-- the statement as it read before the capacity was modelled — the bytes written successfully so far followed by `toBuf` only
+    ever grow at the end, by the telnet option replies to what was read in this call — holds whenever what stays queued and
+    the replies fit the buffer together; in particular whenever the buffer is not full afterwards -/
+theorem handleReady_write_conserve_below (c : CS) (hcap : c.dev.toBuf.length ≤ 65536) :
+    ∃ bs, ((c.dev.toBuf ++ repliesOf c.dev bs).length ≤ 65536 ∨ (handleReady c).1.dev.toBuf.length < 65536 →
+      devWritten (handleReady c).1.sys ++ (handleReady c).1.dev.toBuf =
+        devWritten c.sys ++ c.dev.toBuf ++ repliesOf c.dev bs) := by
+  obtain ⟨bs, wr, kept, h1, h2, h3⟩ := handleReady_write_conserve c hcap
+  refine ⟨bs, fun hf => ?_⟩
+  have hfit : (kept ++ repliesOf c.dev bs).length ≤ 65536 := by
+    rcases hf with hf | hf
+    · rw [← h1] at hf; simp only [List.length_append] at hf ⊢
+      exact Nat.le_trans (Nat.add_le_add_right (Nat.le_add_left _ _) _) hf
+    · rw [h3, clipTo_length] at hf
+      have := Nat.lt_of_not_le (fun hge => by rw [Nat.min_eq_right hge] at hf; exact Nat.lt_irrefl _ hf)
+      exact Nat.le_of_lt this
+  rw [h2, h3, clipTo_of_le _ hfit, ← h1]; simp [List.append_assoc]
 
 end Pm.Dev2.Tel
 
